@@ -107,7 +107,23 @@ def enumerate_cases(tier, seed):
         seen.add(key)
         out.append(dict(cls=cls, opts=opts, unmodelled=unmodelled, _seed=seed))
     out.append(dict(cls=cls, opts={}, registry=True, unmodelled=unmodelled, _seed=seed))
-  return out
+  # histories of the ORIGINAL before it is serialised: (hook) the layer hook _set_trainable_parameter every Q layer calls
+  # on the quantizers it is given has run; (mode) the library-global sigmoid approximation was switched between the
+  # construction of the original and the round trip.  Everything that determines the function must still be in the config.
+  extra = []
+  for c in out:
+    if c.get("registry"):
+      continue
+    nbase = max([len(b) for b in BASES.get(c["cls"], []) if b and set(b) <= set(c["opts"])] or [0])
+    hooked = c["cls"] in ("quantized_bits", "quantized_linear")      # the classes whose hook touches more than alpha
+    if len(c["opts"]) - nbase <= (2 if hooked else 1) + (0 if tier == "quick" else 1):
+      extra.append(dict(c, hist="hook"))
+    if len(c["opts"]) - nbase > (1 if tier == "quick" else 2):
+      continue
+    if c["cls"] in ("quantized_sigmoid", "quantized_tanh", "quantized_hswish"):
+      for m1, m2 in (("smooth", "hard"), ("real", "hard"), ("hard", "smooth")):
+        extra.append(dict(c, hist="mode:%s>%s" % (m1, m2)))
+  return out + extra
 
 
 def _materialize(opts):
@@ -167,6 +183,8 @@ def run_case(case):
     # of the route itself (an exception while rebuilding)
     key = "%s:%s:%s" % (case["cls"], route, lost) if lost.startswith("raises") or not lost.startswith(
         ("lost:", "with:")) else "%s:%s" % (case["cls"], lost)
+    if case.get("hist") and lost.startswith(("lost:", "with:")) and not lost.endswith("call-raises"):
+      key += ":after-" + case["hist"].split(":")[0]     # a difference of behaviour that the history brought about
     if len(viol) < 8 and not any(v["key"] == key for v in viol):
       viol.append({"key": key, "what": "%s via %s: %s" % (case["cls"], route, what),
                    "detail": {"case": {k: v for k, v in case.items() if k != "unmodelled"}}})
@@ -180,8 +198,21 @@ def run_case(case):
     return {"evals": 2, "nontrivial": 0, "state": "registry:" + case["cls"], "digest": common.digest(ok),
             "violations": viol, "info": {"unmodelled_" + case["cls"]: case["unmodelled"]}}
   opts = _materialize(case["opts"])
+  hist = case.get("hist", "")
+
+  def original():
+    if hist.startswith("mode:"):
+      m1, m2 = hist[5:].split(">")
+      Q.set_internal_sigmoid(m1)
+      q = cls(**opts)
+      Q.set_internal_sigmoid(m2)
+      return q
+    q = cls(**opts)
+    if hist == "hook":
+      q._set_trainable_parameter()   # pylint: disable=protected-access
+    return q
   try:
-    q0 = cls(**opts)
+    q0 = original()
   except (AssertionError, ValueError, TypeError):
     return {"evals": 0, "nontrivial": 0, "state": "invalid:" + repr(case["opts"]), "digest": "invalid",
             "violations": [], "info": {"invalid_configurations": 1}}
@@ -189,7 +220,7 @@ def run_case(case):
   base = []
   for name, x in ps:
     try:
-      base.append(observe(tf, cls(**opts), x))
+      base.append(observe(tf, original(), x))
     except (AssertionError, ValueError, TypeError, tf.errors.InvalidArgumentError):
       base.append(None)
   if all(b is None for b in base):
@@ -247,6 +278,10 @@ def run_case(case):
         bad(route, "rebuilt quantizer raised %s on probe %s: %s" % (type(e).__name__, name, str(e)[:120]),
             lost_hint + ":call-raises")
         break
+      if y.shape != b[0].shape:
+        bad(route, "options %r: output shape %r differs from the original's %r on probe %s" % (case["opts"], y.shape, b[0].shape, name),
+            lost_hint)
+        break
       if not np.array_equal(y, b[0]):
         i = int(np.flatnonzero((y != b[0]).reshape(-1))[0])
         bad(route, "options %r: output differs on probe %s (x=%r: %r vs original %r)" % (
@@ -256,8 +291,9 @@ def run_case(case):
       if not _same_scale(s, b[1]):
         bad(route, "options %r: scale differs on probe %s" % (case["opts"], name), lost_hint)
         break
+  common.reset_keras()
   return {"evals": evals, "transitions": evals + len(ps), "nontrivial": nontrivial,
-          "state": case["cls"] + repr(sorted(case["opts"].items(), key=lambda kv: kv[0])),
+          "state": case["cls"] + repr(sorted(case["opts"].items(), key=lambda kv: kv[0])) + case.get("hist", ""),
           "digest": common.digest(*[b[0] for b in base if b is not None]), "violations": viol, "traces": evals,
           "info": {"valid_configurations": 1},
           "sample": {"cls": case["cls"], "options": case["opts"], "routes": ROUTES, "probes": len(ps)}}
